@@ -437,6 +437,20 @@ def build_unit(template, repo, out_path, contracts_dir=None, vacuity=False):
                 body = body[:h] + ".expect_unchecked(" + body[h + 8:]
             if hits:
                 local["R10"] = local.get("R10", 0) + len(hits)
+        if opts.get("r12"):
+            # R12 (opt-in, counted): `T::default()` -> `T(0)` for a tuple struct `pub struct T(pub i64);`
+            # that derives Default (the derive expands to exactly that); the definition is checked in the
+            # source file before rewriting, otherwise the anchor is lost
+            tname = opts["r12"]
+            dm = re.search(r"#\[derive\(([^\]]*)\)\]\s*(?:#\[[^\]]*\]\s*)*pub struct " + re.escape(tname) + r"\(pub i64\);", src)
+            if not dm or "Default" not in dm.group(1):
+                raise AnchorError(f"R12: {tname} is not `#[derive(.. Default ..)] pub struct {tname}(pub i64);` any more")
+            m12 = mask(body)
+            hits = [h.start() for h in re.finditer(re.escape(tname) + r"::default\(\)", m12)]
+            for h in reversed(hits):
+                body = body[:h] + tname + "(0)" + body[h + len(tname) + len("::default()"):]
+            if hits:
+                local["R12"] = local.get("R12", 0) + len(hits)
         # R9: an ignored closure parameter `|_|` is given a name (Verus accepts only variables there)
         m9 = mask(body)
         hits = [h.start() for h in re.finditer(r"\|_\|", m9)]
